@@ -318,4 +318,33 @@ theorem C14_replay_window_from_params_regression :
       decide (s'.agc.map Agc.Z = r.1.agc.map Agc.Z))) = some true) ∧
     faithful exGenesisW exBlocksW = true := by decide
 
+/-- caches.go: cacheValidator.add — every update that changes the cached validator map (a removal,
+a changed power, a new validator) raises the `update` flag, which is what makes CommitCache persist
+ValidatorUpdateBlock: if the map after `add` differs from the map before, the flag is set. -/
+theorem C14_valset_change_persisted (cur upd : List (Nat × Int)) :
+    (cacheAddVals cur upd).1 ≠ cur → (cacheAddVals cur upd).2 = true := by
+  intro hne
+  have := cacheAddVals_flag upd (cur, false)
+  simp only at this
+  rcases this with h | h
+  · exact h
+  · exfalso
+    apply hne
+    have : cacheAddVals cur upd = (cur, false) := h
+    rw [this]
+
+
+/-- a pure removal in block 9 (validator 2 leaves), the block at which round 3 opens -/
+def exBlocksRemoval : List Block :=
+  [exEmpty, exEmpty, exEmpty, exEmpty, exEmpty, exEmpty, exEmpty, exEmpty,
+   { blockTime := 100, txs := [], updates := [(2, 0)] }]
+
+/-- on that history ValidatorUpdateBlock is the block of the removal, the departed validator is gone
+from the context and the cache, and the node restarted in block 10 rebuilds exactly the live context -/
+example :
+    ((runBlocks exGenesis exBlocksRemoval).map (fun r => (r.1.store.vuBlock, r.1.agc.map (·.vals), r.1.agc.map (·.total))) =
+      some (some 9, some [(0, 20), (1, 10)], some 30)) ∧
+    ((runBlocks exGenesis exBlocksRemoval).bind (fun r => (restartAt r.1 100).map (fun s' =>
+      (decide (s'.agc = r.1.agc), decide (s'.cache = r.1.cache)))) = some (true, true)) := by decide
+
 end ExoVerif.Oracle
